@@ -25,6 +25,16 @@ def load_ctx(tier):
     prog = facts.load_program(target_set="lib")
     extra = {}
     targets = ["lib"]
+    if tier == "thorough":
+        # the binaries are clients of the library: the enumerative deny rules look at them too
+        from mir import Program
+
+        files, hsh, meta = facts.extract(target_set="bins")
+        for f in files:
+            nm = os.path.basename(f).split("-")[0]
+            if nm in ("svr", "cli"):
+                extra["bin:" + nm] = Program.load(f)
+                targets.append("bin:" + nm)
     ctx = Ctx(prog, targets, extra)
     _CTX[tier] = ctx
     return ctx
